@@ -193,3 +193,49 @@ func firstLine(s string) string {
 	}
 	return s
 }
+
+// gaugeSeries returns every series of a gauge, keyed by its label values.
+func gaugeSeries(name string) map[string]float64 {
+	out := map[string]float64{}
+	mfs, err := prometheus.DefaultGatherer.Gather()
+	if err != nil {
+		return out
+	}
+	for _, mf := range mfs {
+		if mf.GetName() != name {
+			continue
+		}
+		for _, m := range mf.GetMetric() {
+			if m.Gauge == nil {
+				continue
+			}
+			var ls []string
+			for _, l := range m.GetLabel() {
+				ls = append(ls, l.GetName()+"="+l.GetValue())
+			}
+			sort.Strings(ls)
+			out[strings.Join(ls, ",")] = m.Gauge.GetValue()
+		}
+	}
+	return out
+}
+
+// seriesDrift lists the series of a gauge that differ from their baseline.
+func seriesDrift(name string, base map[string]float64) []string {
+	var out []string
+	now := gaugeSeries(name)
+	keys := map[string]bool{}
+	for k := range now {
+		keys[k] = true
+	}
+	for k := range base {
+		keys[k] = true
+	}
+	for k := range keys {
+		if now[k] != base[k] {
+			out = append(out, fmt.Sprintf("{%s}: %+g", k, now[k]-base[k]))
+		}
+	}
+	sort.Strings(out)
+	return out
+}
